@@ -44,6 +44,17 @@ func doReq(h fasthttp.RequestHandler, method, path string) *fasthttp.RequestCtx 
 	return rc
 }
 
+func doReqH(h fasthttp.RequestHandler, method, path string, kv ...string) *fasthttp.RequestCtx {
+	rc := &fasthttp.RequestCtx{}
+	rc.Request.Header.SetMethod(method)
+	rc.Request.SetRequestURI(path)
+	for i := 0; i+1 < len(kv); i += 2 {
+		rc.Request.Header.Set(kv[i], kv[i+1])
+	}
+	h(rc)
+	return rc
+}
+
 func TestC01Measure(t *testing.T) {
 	var in c01MeasureIn
 	b, err := os.ReadFile(os.Getenv("VERIF_IN"))
